@@ -256,6 +256,15 @@ func FamilyCont(tier string) []*Scenario {
 						sc := &Scenario{Family: "F-cont", Name: fmt.Sprintf("cont-%s-k%d-n%d-a%d-pre%v", level, k, nseq, nact, withPre),
 							Plans: []PlanSpec{ps}, Time: true, MaxTicks: 6}
 						out = append(out, sc)
+						if nseq == 1 || (nseq == 2 && nact == 1 && !withPre) {
+							// slow-plugin twin: by default time passes while a sequence action executes, so the
+							// k-th run of the check falls inside the action even with no deviation at all
+							tw := cloneScenario(sc)
+							tw.Name += "-slow"
+							tw.SlowPlugins = true
+							tw.MaxTicks = k + 2
+							out = append(out, tw)
+						}
 						if level != "block" && nseq == 2 && nact == 1 {
 							// the engine's poll of the continuous-check results is a select with several ready cases:
 							// explore the other poll order as well
